@@ -14,7 +14,8 @@ CHECKS = {
         text="TLC exhausts every tree shape with <=5 (thorough: 6) tokens, every arrival order, forged/dangling/duplicate "
              "tokens; every transition of the dumped graph (n=4, content model) is executed on the real TokenTree and "
              "the projected state compared, so the code is shown to follow the spec on exactly the space the property "
-             "quantifies over; larger random trees are checked as TLC-validated traces.",
+             "quantifies over; larger random trees are checked as TLC-validated traces."
+             " Offers are also rebuilt from stored rows (Token.from_database_tuple), including rows whose content column does not hash to the signed pointer.",
         note="Signature primitives and SHA3 are trusted; >6 tokens only sampled (24-token recorded histories)."),
 }
 
@@ -27,7 +28,8 @@ CHECKS.update({
                   "production receive path; every delivery validated by TLC against AuthTrace.tla",
         text="TLC exhausts the abstract mutation space; every mutation class is applied at every byte position of real captured "
              "datagrams of all eight shipped overlay classes and TLC judges each observed handler entry / verified-peer delta "
-             "against the spec with an independent signature oracle.",
+             "against the spec with an independent signature oracle."
+             " The verified-peer table itself is spec state (book): long-lived receiver sessions (history made by the real code, then forged input from the sender's, the attacker's and a third address) are validated event by event; a rejected datagram must leave the table unchanged (RejectInert, BookLegit).",
         note="Signature primitives of ipv8_rust_tunnels trusted; mutations are the listed finite family over real captures."),
     "C04": dict(
         category="model_checking", design_ref="DESIGN.md section 4, Onion.tla + C04",
@@ -47,7 +49,8 @@ CHECKS.update({
                   "transports traced and validated by TLC (ExitPolicyTrace.tla)",
         text="Exhaustive over the header bytes the classifier inspects (TLC computes the expected verdicts), model checking of "
              "the exit-socket life cycle, and TLC-validated traces of the real emission path in both directions for every "
-             "payload class x destination kind x source x socket state.",
+             "payload class x destination kind x source x socket state."
+             " Addresses are part of the state (asked / sent-to / heard-from history per socket): a forbidden datagram gains nothing from earlier allowed traffic with the same host (flow-cache deviations are spec-level controls).",
         note="Dropping allowed traffic is not a violation (safety reading); a domain resolving to 0.0.0.0 is outside the property."),
     "C10": dict(
         category="model_checking", design_ref="DESIGN.md section 4, C10",
@@ -56,7 +59,8 @@ CHECKS.update({
                   "recorded schedules validated by TLC (RequestCacheTrace.tla)",
         text="TLC exhausts all interleavings of add/pop/timer fire/task run/passthrough/clear/shutdown for <=3 (thorough 4) caches; "
              "every edge of the 2-cache graph and simulated 3/4-cache behaviours are executed on the real code with pops/adds "
-             "nested in on_timeout; larger random populations are validated as traces.",
+             "nested in on_timeout; larger random populations are validated as traces."
+             " The response path (retrieve_cache) is its own action with handler scripts (raise, pop, nested add / response, coroutine bodies) and a claim counter: a request is handed to a claimant at most once.",
         note="Single event-loop thread; ready handles may run in any order in the spec (superset of asyncio FIFO)."),
     "C19": dict(
         category="fault_enumeration", design_ref="DESIGN.md section 4, C19",
@@ -65,7 +69,8 @@ CHECKS.update({
                   "return boundary, a fresh process reopens; event logs + observed rows validated by TLC (CrashDbTrace.tla)",
         text="Every crash point of the scripted workloads is enumerated against the real code and the resulting trace is "
              "judged by TLC (AckedDurable, NoPartialRecord, ReopenOk, PseudonymVerifies); TLC also explores all crash "
-             "placements of <=3 (thorough 4) record workloads on the spec.",
+             "placements of <=3 (thorough 4) record workloads on the spec."
+             " with-database blocks (held / acknowledged at block exit), the commit gate after an aborted block and the pseudonym rebuilt by a fresh process (tree, credentials, attestations compared object by object) are modelled.",
         note="sqlite WAL atomicity/durability under process kill is trusted; kills land between statements, not inside a write."),
 })
 
@@ -87,7 +92,8 @@ CHECKS.update({
                   "TunnelCommunity and real Circuit objects; recorded histories validated by TLC",
         text="Every interleaving of the quantifier's events to depth 7 is explored on the spec; all 3-event paths, a cover of the "
              "4-event graph and long simulated behaviours are executed on the real objects with exact state comparison; the "
-             "abstract layer (never raw for anonymised prefixes, only ready right-length IPv8-exit circuits, bounded queue) judges.",
+             "abstract layer (never raw for anonymised prefixes, only ready right-length IPv8-exit circuits, bounded queue) judges."
+             " Overlay instances are spec state: further instances with the same prefix are loaded and unloaded on the shared endpoint and late / replaced instances send (SwitchFollowsRequests).",
         note="Circuits reach their states through add_hop/close on real objects, not through a network handshake."),
     "C11": dict(
         category="model_checking", design_ref="DESIGN.md section 4, C11",
@@ -97,7 +103,8 @@ CHECKS.update({
                   "late datagrams of every message id + 2 h; event logs validated by TLC (UnloadTrace.tla)",
         text="Silence after unload is decided by TLC on recorded executions of the real overlays (sends, handler entries, task "
              "steps, cache time-outs, outside sockets) with the unload point enumerated; the task-manager clauses are decided by "
-             "exhaustive replay of the spec's state graph on the real TaskManager.",
+             "exhaustive replay of the spec's state graph on the real TaskManager."
+             " Bootstrapper initialisations (incl. the UDP broadcast socket opened asynchronously) and exit-socket removals pending at unload time are spec state; unload is requested at every event of those windows.",
         note="Only sends on the simulated wire / outside transports are seen; events while unload() is still running are unconstrained."),
     "C17": dict(
         category="model_checking", design_ref="DESIGN.md section 4, C17",
@@ -152,7 +159,8 @@ CHECKS.update({
                   "replayed on real DHT nodes with real signed datagrams; a 15-node network with an attacker recorded and validated by "
                   "TLC (DhtStoreTrace / DhtLookupTrace); TLC enumerates lookup value lists and computes the admissible result",
         text="Token authorisation, limits, signature verification, highest-version reporting, no-downgrade and expiry are invariants "
-             "of the spec; the real node's storage, secret window and responses are compared with the TLC state after every action.",
+             "of the spec; the real node's storage, secret window and responses are compared with the TLC state after every action."
+             " The token validity window is clock time in the spec (rotation is a timer of the real node under the virtual clock), and an expired-but-uncleaned newer version still gates older ones.",
         note="Rate limiter off in replays; malformed values are C03 territory."),
     "C18": dict(
         category="model_checking", design_ref="DESIGN.md section 4, C18",
@@ -175,7 +183,8 @@ CHECKS.update({
                   "DestroyOnlyFromNeighbour, UnknownCellsInert)",
         text="Isolation invariants and action properties hold in every state/step TLC explores and on every recorded execution of "
              "the real nodes; a scripted run sends a create for every circuit id in use at every node (both sides of the 60 s "
-             "cache) and forged/replayed destroys from non-neighbours.",
+             "cache) and forged/replayed destroys from non-neighbours."
+             " Destroys signed by the attacker's own key from its own and every spoofed source address, replayed genuine destroys, and created answers re-labelled with another circuit's id are part of the scripted families.",
         note="Symbolic AEAD/DH; the signature check of destroy itself is C01; replayed destroys are sent with the spoofed source "
              "of their signer (address re-learning of the community layer is not modelled)."),
     "C08": dict(
@@ -186,7 +195,8 @@ CHECKS.update({
                   "validated by TLC (NoForeignKey, KeyAgreement, AnswerMustMatch, hops immutable) plus probes on the real key bytes",
         text="TLC shows that no manipulation (wrong identifier, other circuit, substituted ephemeral with correct auth, flipped auth/"
              "candidates, duplicates, answers after retry) yields a hop key known to anyone but the selected peer, and the real "
-             "originator/relays follow the spec step by step under those manipulations.",
+             "originator/relays follow the spec step by step under those manipulations."
+             " PathAgreement (an established hop is never re-routed) is checked with honest nodes only, two exits and answers of abandoned attempts arriving after the retry, and with an admission decision that really suspends (SuspendJoin) under duplicated creates.",
         note="X25519/HMAC/HKDF idealised; a malicious relay on the path is represented by manipulations of the created it forwards."),
     "C09": dict(
         category="fault_enumeration", design_ref="DESIGN.md section 4, Onion.tla + C09",
@@ -196,7 +206,8 @@ CHECKS.update({
                   "control messages, time advanced past the bound; each run validated by TLC (Reclaimed in every state, Quiet + "
                   "closed outside sockets at the deadline, JoinLimit, RelayEarlyBudget)",
         text="Bounded-time reclamation is an invariant of the timed spec and is evaluated by TLC on every enumerated fault run of the "
-             "real nodes with their default timers; join limit and relay_early budget are action property / invariant.",
+             "real nodes with their default timers; join limit and relay_early budget are action property / invariant."
+             " The join limit is driven to its boundary (limit 1..4, two originators) and validated with MaxJoined = limit.",
         note="Bounds from the default settings in force; max_time (1 h) as last resort is not reached; pings are off in the MC configs."),
     "C14": dict(
         category="model_checking", design_ref="DESIGN.md section 4, C14",
